@@ -2026,9 +2026,16 @@ pub fn c17(a: &Analysis, sc: &Scenario) -> Vec<Violation> {
                     continue;
                 }
                 let acks: Vec<&InView> = a.acks_for(*op_id).into_iter().filter(|i| i.p.conn == c && i.avail_seq.is_some()).collect();
+                // (a failing PUBREC ends the exchange only if it is the one PUBREC this publish
+                // gets: the resume generator may "forget" a successful PUBREC it believes lost
+                // although the client consumed it, and a second, different PUBREC for the same
+                // exchange is not something a server sends - see log entry 19)
+                let had_successful_pubrec = |before: Option<usize>| {
+                    a.acks_for(*op_id).into_iter().any(|i| matches!(&i.p.pkt, Some(Packet::Pubrec(x)) if x.reason < 0x80) && i.avail_seq.is_some() && i.avail_seq < before)
+                };
                 let completing = acks.iter().find(|i| match &i.p.pkt {
                     Some(Packet::Puback(_)) | Some(Packet::Pubcomp(_)) => true,
-                    Some(Packet::Pubrec(x)) => x.reason >= 0x80,
+                    Some(Packet::Pubrec(x)) => x.reason >= 0x80 && !had_successful_pubrec(i.avail_seq),
                     _ => false,
                 });
                 if let Some(ack) = completing {
